@@ -45,6 +45,15 @@ history a node has the same strong (fuzzy) hash if the files it depends on have 
 files only need to exist) at both moments, and different hashes if the multiset of (contents, method) of the files
 it consumes differs; no hash while a consumed file is missing; the fuzzy hash moves with the producers'.
 Model: Hash.observeHistory (Model/HashFs.lean: the hash is a function of the current file system, the only state).
+
+Chains of producers: a file is missing at ANY level of a chain (pairs: aspects missing-input / missing-produced walk up
+the chain; histories: remove steps) => no strong (fuzzy) hash for every component whose hash stands on the hash of an
+un-hashable producer (working directory named in the arguments; fuzzy: also every produced file), by closure along the
+chain (`unhashable`).  Theorems: C16.no_hash_when_producer_has_no_hash, C16.no_hash_down_the_chain.
+
+Sessions (the per-object cache + the code that reads hashes while files are written): see the section "sessions"
+below.  Model: Hash.runS / Hash.disciplinedB (Model/HashCache.lean); theorems C16.session_hashes_are_current,
+C16.session_reads_are_current, C16.hash_depends_only_on_producer_cone, witness early_request_freezes_stale_hash.
 """
 from __future__ import annotations
 
@@ -64,6 +73,10 @@ _state = {}
 
 def _imports():
     if "G" not in _state:
+        # tests.utils imports experiment.runtime.*: the deterministic runtime (sessions with the real Controller) has
+        # to be installed before that; it does not touch the model / hashing code
+        from harness import detsim
+        detsim.install()
         import experiment.model.graph as G
         import tests.utils as TU
         import yaml
@@ -239,6 +252,15 @@ class World:
                         os.utime(os.path.join(dp, fn), (spec["mtime"], spec["mtime"]))
                     except OSError:
                         pass
+
+    @classmethod
+    def over(cls, spec, exp):
+        """a World over an experiment object that exists already (nothing is written)"""
+        w = cls.__new__(cls)
+        w.spec = spec
+        w.inst = exp.instanceDirectory.location
+        w._adopt(exp)
+        return w
 
     def _adopt(self, exp):
         _G, _TU, _yaml, nx = _imports()
@@ -520,6 +542,55 @@ def downstream(spec, i):
     return res
 
 
+def in_arguments(c, k):
+    return any(seg.get("r") == k for part in c["args"] for seg in part)
+
+
+def carries(c, k, side):
+    """Does the hash of the producer enter the hash of consumer `c` through its k-th reference?  Property text: every
+    reference (of the arguments) is replaced by the hash of the content it refers to - for the working directory of a
+    producer that content is identified by the producer's hash; the fuzzy hash stands on the producer's fuzzy hash for
+    every produced file it consumes.  (A producer directory that is only staged in by :copy / :link contributes
+    nothing: known finding C16-producer-directory-not-hashed, not asserted here.)"""
+    r = c["refs"][k]
+    if r["kind"] != "comp":
+        return False
+    if r["file"] is None and r["method"] != "output":
+        return r["method"] in ARG_METHODS and in_arguments(c, k)
+    return side == "fuzzy"
+
+
+def direct_missing(spec):
+    """components that consume a file that is not there"""
+    gone = {(r["kind"], r["file"]) for c in spec["comps"] for r in c["refs"]
+            if r["kind"] in ("input", "data") and r.get("missing")}
+    res = set()
+    for ci, c in enumerate(spec["comps"]):
+        for r in c["refs"]:
+            if r["kind"] in ("input", "data"):
+                if (r["kind"], r["file"]) in gone:
+                    res.add(ci)
+            elif r["file"] or r["method"] == "output":
+                if (spec["comps"][r["prod"]].get("out") or {}).get(r["file"] or "out.stdout") is None:
+                    res.add(ci)
+    return res
+
+
+def unhashable(spec, direct, side):
+    """components that cannot have a `side` hash: a file they consume is missing, or - along any chain of producers -
+    the hash of a producer that their own hash stands on cannot exist"""
+    res = set(direct)
+    changed = True
+    while changed:
+        changed = False
+        for ci, c in enumerate(spec["comps"]):
+            if ci not in res and any(r["kind"] == "comp" and r["prod"] in res and carries(c, k, side)
+                                     for k, r in enumerate(c["refs"])):
+                res.add(ci)
+                changed = True
+    return res
+
+
 def fresh_name(rng, spec, stem_ok=True):
     used = {c["name"] for c in spec["comps"]}
     cands = [nm for nm in NAMES + ["work", "work3", "calc7", "zz10"] if nm not in used]
@@ -652,17 +723,29 @@ def make_variant(rng, base, aspect, t):
             for rr in cc["refs"]:
                 if rr["kind"] == kind and rr["file"] == old:
                     rr["file"] = new
-    elif aspect == "missing-input":
-        cands = [r for r in c["refs"] if r["kind"] in ("input", "data")]
-        if not cands:
+    elif aspect in ("missing-input", "missing-produced"):
+        # the file that is missing is consumed by the target or by a producer somewhere up the chain ("no hash is
+        # produced while a referenced input is missing ... every chain of producers")
+        def cands_of(ci):
+            cc = v["comps"][ci]
+            if aspect == "missing-input":
+                return [r for r in cc["refs"] if r["kind"] in ("input", "data")]
+            return [r for r in cc["refs"] if r["kind"] == "comp" and (r["file"] or r["method"] == "output")]
+        cone = [t]
+        frontier = [t]
+        for _ in range(4):
+            frontier = sorted({r["prod"] for ci in frontier for r in v["comps"][ci]["refs"] if r["kind"] == "comp"})
+            cone += [ci for ci in frontier if ci not in cone]
+        where = [ci for ci in cone if cands_of(ci)]
+        if not where:
             return None
-        rng.choice(cands)["missing"] = True
-    elif aspect == "missing-produced":
-        cands = [r for r in c["refs"] if r["kind"] == "comp" and (r["file"] or r["method"] == "output")]
-        if not cands:
-            return None
-        r = rng.choice(cands)
-        v["comps"][r["prod"]]["out"][r["file"] or "out.stdout"] = None
+        m = t if (t in where and rng.random() < 0.4) else rng.choice(where)
+        r = rng.choice(cands_of(m))
+        if aspect == "missing-input":
+            r["missing"] = True
+        else:
+            v["comps"][r["prod"]]["out"][r["file"] or "out.stdout"] = None
+        exp["missing_at"] = m
     elif aspect in ("twin-same", "twin-exe"):
         if c.get("replicate") or c.get("aggregate"):
             return None
@@ -801,9 +884,14 @@ def oracle_pair(ctx, case, base_obs, var_obs, exp, base):
             elif V[k]["fuzzy"] != n["fuzzy"]:
                 fail("irrelevant-aspect-changes-fuzzy-hash:" + aspect)
     elif aspect in ("missing-input", "missing-produced"):
-        for k in tkeys:
-            if V[k]["strong"] is not None or V[k]["fuzzy"] is not None:
-                fail("hash-produced-while-input-missing")
+        variant = case["variant"]
+        direct = direct_missing(variant)
+        for side in ("strong", "fuzzy"):
+            for ci in sorted(unhashable(variant, direct, side)):
+                for k in keys_of(var_obs, ci):
+                    if V[k][side] is not None:
+                        ctx.fail("hash-produced-while-input-missing" + ("" if ci in direct else ":chain"), case,
+                                 dict(detail, side=side, node=k, components_with_a_missing_file=sorted(direct)))
     elif aspect in ("twin-same", "twin-exe"):
         tw = keys_of(var_obs, exp["twin"])[0]
         k = tkeys[0]
@@ -949,6 +1037,7 @@ def check_pairs(ctx, pairs):
         reqs.append(vo["model"])
     answers = model_worlds(ctx, reqs)
     cross_oracle(ctx, observed)
+    observe_again(ctx, observed)
     for idx, (case, bo, vo) in enumerate(observed):
         exp = case["exp"]
         t = exp["target"]
@@ -971,6 +1060,53 @@ def check_pairs(ctx, pairs):
             for which, obs, ans in (("base", bo, answers[2 * idx]), ("variant", vo, answers[2 * idx + 1])):
                 ctx.compare("memoization_hash/_fuzzy of every node == Hash.hashes (md5 := hashlib table)",
                             {"which": which, "case": case}, model_out(obs, ans), impl_out(obs))
+
+
+class debug_logging:
+    """the code under test with logging switched on at DEBUG level (nothing is printed): a user may run with any
+    log level, the hashes must not depend on it"""
+
+    def __enter__(self):
+        self.root = logging.getLogger()
+        self.level = self.root.level
+        self.handler = logging.NullHandler()
+        self.root.addHandler(self.handler)
+        self.root.setLevel(logging.DEBUG)
+        self.disabled = logging.root.manager.disable
+        logging.disable(logging.NOTSET)
+        return self
+
+    def __exit__(self, *a):
+        logging.disable(self.disabled)
+        self.root.setLevel(self.level)
+        self.root.removeHandler(self.handler)
+
+
+def observe_again(ctx, observed, limit=16):
+    """A sample of the experiments of this batch is built and hashed AGAIN - later in the same process, in another
+    order, after all the unrelated experiments (whose components carry the same names in other roles), elsewhere on
+    the disk, with DEBUG logging on.  The hashes must be those of the first time (location, time and whatever the
+    process did before are not part of the work)."""
+    if not observed:
+        return
+    step = max(1, len(observed) // limit)
+    sample = observed[::step][:limit]
+    tmp = tempfile.mkdtemp(prefix="c16a-")
+    try:
+        for case, bo, vo in reversed(sample):
+            for which, spec, first in (("variant", case["variant"], vo), ("base", case["base"], bo)):
+                try:
+                    with debug_logging():
+                        again = build_and_observe(spec, tmp)
+                except Exception as exc:  # noqa
+                    ctx.fail("result-depends-on-earlier-cases", case, {"which": which, "error": repr(exc)[:300]})
+                    continue
+                ctx.tag("again")
+                if impl_out(again) != impl_out(first):
+                    ctx.fail("result-depends-on-earlier-cases", case,
+                             {"which": which, "first": first["nodes"], "again": again["nodes"]})
+    finally:
+        shutil.rmtree(tmp, ignore_errors=True)
 
 
 NOARG_ALL = ("copy", "link", "extract", "copyout")
@@ -1307,11 +1443,12 @@ def mutate_other_length(rng, content):
     return content + rng.choice(["!", "\n", "ZZ", "0"])
 
 
-def gen_history(rng, multi=False):
+def gen_history(rng, multi=False, chain=False):
     """multi: the experiment has a component that consumes several files with identical contents through one method
-    (the steps then prefer to make contents of two files equal / different again: [X, X, Y] <-> [X, Y, Y])"""
+    (the steps then prefer to make contents of two files equal / different again: [X, X, Y] <-> [X, Y, Y]);
+    chain: the experiment is a chain of producers (the steps prefer to remove and re-create files)"""
     for _ in range(30):
-        spec = gen_mult_base(rng, allow_repl=True)[0] if multi else gen_world(rng)
+        spec = gen_chain_world(rng) if chain else gen_mult_base(rng, allow_repl=True)[0] if multi else gen_world(rng)
         cur = initial_contents(spec)
         if cur:
             break
@@ -1324,8 +1461,10 @@ def gen_history(rng, multi=False):
     nsteps = rng.randint(2, 5)
     for k in range(nsteps):
         kinds = ["rewrite"] * 6 + ["revert"] * 2 + ["swap"] * 2 + ["remove", "touch", "touch-all", "reload", "reload"]
-        if multi:
-            kinds += ["equalise"] * 8
+        if chain:
+            kinds += ["remove"] * 6 + ["revert"] * 2
+        if multi or chain:
+            kinds += ["equalise"] * (8 if multi else 0)
             kind = rng.choice(kinds)
         else:
             kind = "rewrite" if k == 0 else rng.choice(kinds)
@@ -1546,6 +1685,13 @@ def oracle_history(ctx, case, hist):
     def fuzzy_view(snap, f):
         return snap[f] if f[0] != "out" else tuple(x is not None for x in snap[f])
 
+    # per observation: the components that consume a file that is missing at that moment, and those whose hash stands
+    # on the hash of such a component along a chain of producers
+    gone = []
+    for o in obs:
+        d = {ci for ci in range(len(spec["comps"]))
+             if any(not present(o["snap"][f]) for f, _m, _p in direct_files(spec, ci))}
+        gone.append({"direct": d, "strong": unhashable(spec, d, "strong"), "fuzzy": unhashable(spec, d, "fuzzy")})
     for key in keys:
         ci = int(key.split(".")[0])
         direct = direct_files(spec, ci)
@@ -1558,6 +1704,10 @@ def oracle_history(ctx, case, hist):
                 fail("no-hash-although-every-input-is-present", j, j, key)
             if any(not present(o["snap"][f]) for f, _m, _p in direct) and (h["strong"] is not None or h["fuzzy"] is not None):
                 fail("hash-produced-while-input-missing", j, j, key)
+            for side in ("strong", "fuzzy"):
+                if ci in gone[j][side] and h[side] is not None:
+                    fail("hash-produced-while-input-missing:chain", j, j, key, side=side,
+                         components_with_a_missing_file=sorted(gone[j]["direct"]))
         for i in range(len(obs)):
             for j in range(i + 1, len(obs)):
                 a, b = H[i].get(key), H[j].get(key)
@@ -1701,6 +1851,17 @@ def corpus_cases():
     r2["comps"][0]["name"] = "calc"
     cases.append({"kind": "pair", "base": r2, "variant": r, "exp": {"aspect": "producer-name", "target": 1},
                   "must_build": True})
+    # 10 against 11 replicas (replica indices with one and with two digits) of a producer whose name ends in a digit
+    r10 = copy.deepcopy(r)
+    r10["comps"][0]["replicate"] = 10
+    r11 = copy.deepcopy(r)
+    r11["comps"][0]["replicate"] = 11
+    cases.append({"kind": "pair", "base": r10, "variant": r11,
+                  "exp": {"aspect": "mult:replicas", "target": 1, "source": "produced"}, "must_build": True})
+    r11b = copy.deepcopy(r11)
+    r11b["comps"][0]["name"] = "calc"
+    cases.append({"kind": "pair", "base": r11b, "variant": r11, "exp": {"aspect": "producer-name", "target": 1},
+                  "must_build": True})
     # chain of four producers: the change of the root must reach the fuzzy hash of the last consumer
     def link(p, f="out.txt", m="ref"):
         return {"kind": "comp", "file": f, "method": m, "prod": p, "abs": False, "content": None, "missing": False}
@@ -1773,6 +1934,538 @@ def corpus_mult_cases():
     return cases
 
 
+# ----------------------------------------------------------------------------------------
+# sessions: the per-object cache of the hashes, and the code that reads hashes while files are being written
+# ----------------------------------------------------------------------------------------
+# A ComponentSpecification remembers the first hash it could compute (until memoization_reset()).  That is sound only
+# if nobody asks for the hash of a component before the files it stands on are final.  Two kinds of sessions:
+#   controller  the REAL Controller (harness/detsim.py: real run loop, real finishedCheck / _schedule / can_memoize /
+#               status reports, stand-in engines) with a CDB stand-in runs the experiment; the "tasks" write their
+#               output files in pieces (half-written output when the task starts, leftovers of an earlier attempt, the
+#               final bytes just before the task exits); read-only entry points (status reports) are called at chosen
+#               moments.  Oracle (property text, model independent): the hash the controller uses to look a component up
+#               in the CDB, and the hash the component ends the run with (what is published for it), is the hash an
+#               identical component has over the files as they are AT THAT MOMENT (a second Experiment object over the
+#               same instance directory, caches reset).
+#   object      one experiment object: hashes are asked through the public properties (memoization_hash / _info /
+#               _hash_fuzzy / _info_fuzzy) of chosen nodes, interleaved with file changes and memoization_reset() of
+#               chosen nodes: no oracle between resets (the cache is the documented design), after a reset of every node
+#               the answers are those of the current files; model comparison throughout.
+# Model: Hash.runS (Model/HashCache.lean): file system + two caches; events write / remove / compute(flavour, j)
+# (one evaluation of _compute_memoization_info, in the order in which the evaluations return) / reset(j).
+#
+# case = {"kind": "session", "mode": "controller"|"object", "spec": spec, "seed": int, "fuzzy": bool}
+
+class FakeCDB:
+    """stands in for the centralised database: remembers what it is asked, knows no past component"""
+
+    def __init__(self):
+        self.queries = []
+
+    def cdb_get_document_component(self, query=None, **kwargs):
+        self.queries.append(dict(query or {}))
+        return []
+
+
+def session_spec(rng):
+    """a world for a session: no replication, direct files under data/ (the deterministic runtime builds the experiment
+    from a package), every component that is consumed has output files; often a consumer of >= 2 producers"""
+    shape = rng.choice(["fanin", "fanin", "chain", "world"])
+    if shape == "chain":
+        spec = gen_chain_world(rng)
+    elif shape == "world":
+        spec = gen_world(rng, allow_repl=False)
+    else:
+        n = rng.randint(2, 3)
+        names = rng.sample(NAMES, n + 2)
+        comps = []
+        for i in range(n):
+            comps.append(_comp(names[i], 0, rng.choice(EXES), [[{"l": rng.choice(WORDS)}]],
+                               out={"out.txt": rng.choice(["one\n", "part\nrest\n", "1 2 3", "x" * 70])}))
+        refs = []
+        cstage = rng.choice([0, 0, 1])
+        for i in range(n):
+            m = rng.choice(["ref", "ref", "copy", "output"])
+            refs.append({"kind": "comp", "file": "out.txt", "method": m, "prod": i,
+                         "abs": cstage != 0 or rng.random() < 0.5, "content": None, "missing": False})
+        args = [[{"r": k}] for k, r in enumerate(refs) if r["method"] in ARG_METHODS] or [[{"l": "go"}]]
+        comps.append(_comp(names[n], cstage, "/bin/cat", args, refs, out={"r.csv": "R"}))
+        last = {"kind": "comp", "file": None, "method": "ref", "prod": n, "abs": True, "content": None, "missing": False}
+        comps.append(_comp(names[n + 1], comps[n]["stage"], "/bin/ls", [[{"r": 0}]], [last]))
+        spec = {"comps": comps, "order": None, "mtime": None, "loc": "w"}
+    for c in spec["comps"]:
+        c["replicate"] = None
+        c["aggregate"] = False
+        for r in c["refs"]:
+            if r["kind"] == "input":
+                r["kind"] = "data"
+                r["file"] = "in_" + r["file"]
+            r["missing"] = False
+    pool = {}
+    for c in spec["comps"]:
+        for r in c["refs"]:
+            if r["kind"] == "data":
+                r["content"] = pool.setdefault(r["file"], r["content"] if r["content"] is not None else "AAA")
+            elif r["file"] or r["method"] == "output":
+                fn = r["file"] or "out.stdout"
+                if spec["comps"][r["prod"]]["out"].get(fn) is None:
+                    spec["comps"][r["prod"]]["out"][fn] = rng.choice(CONTENTS[:2])
+    return spec
+
+
+def partial_of(rng, final):
+    """what a task that is still writing may have put there"""
+    k = rng.random()
+    if final and k < 0.6:
+        return final[:max(1, len(final) // 2)] if len(final) > 1 else final + "~"
+    if k < 0.8:
+        return "tmp#" + final[::-1]
+    return ""
+
+
+class SessionLog:
+    def __init__(self, world):
+        self.world = world            # shadow world: the truth
+        self.events = []              # model events
+        self.seen = []                # what the real code answered, aligned with self.events
+        self.contents = set()
+
+    def write(self, path, content):
+        with open(path, "w") as fh:
+            fh.write(content)
+        n = fs_node(path)
+        self.contents.add(content)
+        self.events.append({"op": "write", "path": self.world.sym(path), "content": content, "mtime": n["mtime"],
+                            "ino": n["ino"]})
+        self.seen.append(None)
+
+    def remove(self, path):
+        if os.path.isfile(path):
+            os.remove(path)
+            self.events.append({"op": "remove", "path": self.world.sym(path)})
+            self.seen.append(None)
+
+    def truth(self):
+        """hashes of every node over the files as they are now (second experiment object, caches reset)"""
+        o = self.world.observe(symbolic=True)
+        self.contents |= o["contents"]
+        return {n["id"]: n for n in o["nodes"]}, o
+
+
+class ComputeTap:
+    """records every evaluation of ComponentSpecification._compute_memoization_info on the watched objects, in the
+    order in which the evaluations RETURN (producers before their consumers)"""
+
+    def __init__(self, log, specs_by_id, index):
+        G = _imports()[0]
+        self.G, self.log, self.specs, self.index = G, log, specs_by_id, index
+        self.real = G.ComponentSpecification.__dict__.get("_compute_memoization_info")
+        self.active = self.real is not None
+
+    def __enter__(self):
+        if not self.active:
+            return self
+        tap, real, to_hash = self, self.real, self.G.ComponentSpecification._memoization_info_to_hash
+
+        def wrapped(cs, fuzzy=False):
+            info = real(cs, fuzzy)
+            node = tap.specs.get(id(cs))
+            if node is not None:
+                tap.log.events.append({"op": "compute", "fuzzy": bool(fuzzy), "j": tap.index[node]})
+                tap.log.seen.append(to_hash(copy.deepcopy(info)) if info else None)
+            return info
+        self.G.ComponentSpecification._compute_memoization_info = wrapped
+        return self
+
+    def __exit__(self, *a):
+        if self.active:
+            self.G.ComponentSpecification._compute_memoization_info = self.real
+
+
+def session_paths(world, spec):
+    """node id -> {file name: path} of the output files of the specification"""
+    res = {}
+    for n in world.order:
+        node = world.g.nodes[n]
+        cid = node["componentSpecification"].identification
+        ci, _rep = comp_of_node(spec, cid.stageIndex, cid.componentName)
+        res[n] = (ci, {fn: os.path.join(node["componentInstance"].directory, fn)
+                       for fn, content in (spec["comps"][ci].get("out") or {}).items() if content is not None})
+    return res
+
+
+def run_controller_session(case, tmp):
+    """the real Controller runs the experiment; returns {"lookups": […], "final": […], "request": model request, …}"""
+    import random
+    _imports()
+    import experiment.model.data as D
+    from harness import detsim
+    spec = case["spec"]
+    rng = random.Random(case["seed"])
+    data = {"data/" + r["file"]: r["content"] for c in spec["comps"] for r in c["refs"] if r["kind"] == "data"}
+    root = tempfile.mkdtemp(prefix="s-", dir=tmp)
+    cwd = os.getcwd()
+    sim = None
+    try:
+        sim = detsim.Sim(flowir_of(spec), root, {}, extra_files=data)
+        ctl = sim.controller
+        cdb = FakeCDB()
+        ctl.cdb = cdb
+        ctl._memoization_fuzzy = bool(case.get("fuzzy"))
+        try:
+            shadow = D.Experiment.experimentFromInstance(sim.exp.instanceDirectory.location)
+            shadow.validateExperiment(checkExecutables=False)
+        finally:
+            os.chdir(cwd)
+        world = World.over(spec, shadow)
+        log = SessionLog(world)
+        outs = session_paths(world, spec)
+        specs_by_id = {id(sim.exp.experimentGraph.graph.nodes[n]["componentSpecification"]): n for n in world.order}
+        # leftovers of an earlier attempt
+        for n in world.order:
+            for fn, path in sorted(outs[n][1].items()):
+                if rng.random() < 0.2:
+                    log.write(path, "old#" + spec["comps"][outs[n][0]]["out"][fn])
+        first_truth, first = log.truth()
+        fs0 = dict(first["fs"])
+        for n in world.order:
+            for path in outs[n][1].values():
+                fs0.setdefault(world.sym(path), fs_node(path))
+        n_leftover = len(log.events)
+        lookups = []
+        probes = [0]
+
+        def on_launch(ref):
+            for fn, path in sorted(outs.get(ref, (None, {}))[1].items()):
+                final = spec["comps"][outs[ref][0]]["out"][fn]
+                how = rng.choice(["partial", "partial", "partial", "none", "final"])
+                if how == "partial":
+                    log.write(path, partial_of(rng, final))
+                elif how == "final":
+                    log.write(path, final)
+
+        def on_exit(ref, reason):
+            for fn, path in sorted(outs.get(ref, (None, {}))[1].items()):
+                log.write(path, spec["comps"][outs[ref][0]]["out"][fn])
+        sim.launch_hook = on_launch
+        sim.exit_hook = on_exit
+        real_can = ctl.can_memoize
+
+        def can_memoize(component, fuzzy):
+            ref = component.specification.reference
+            truth, _o = log.truth()
+            before = len(cdb.queries)
+            res = real_can(component, fuzzy)
+            field = "memoization-hash-fuzzy" if fuzzy else "memoization-hash"
+            used = cdb.queries[before].get(field) if len(cdb.queries) > before else None
+            want = (truth.get(ref) or {}).get("fuzzy" if fuzzy else "strong")
+            lookups.append({"node": ref, "fuzzy": bool(fuzzy), "used": used, "current": want,
+                            "queries": len(cdb.queries) - before})
+            if ref in world.index:
+                log.events.append({"op": "get", "fuzzy": bool(fuzzy), "j": world.index[ref]})
+                log.seen.append(used)
+            return res
+        ctl.can_memoize = can_memoize
+        weights = rng.choice([dict(exit=3, fin=3, pm=3, sched=2), dict(exit=1, fin=6, pm=6, sched=3),
+                              dict(exit=8, fin=1, pm=1, sched=1), dict(exit=2, fin=2, pm=0.5, sched=5)])
+        p_probe = rng.choice([0.0, 0.15, 0.4])
+        p_rewrite = rng.choice([0.0, 0.1, 0.3])
+        count = [0]
+
+        def chooser(s):
+            count[0] += 1
+            if count[0] > 400:
+                return None
+            if rng.random() < p_probe:
+                probes[0] += 1
+                k = rng.randrange(4)
+                if k == 0:
+                    ctl.generate_status_report_for_nodes(components=None, filter_done=True)
+                elif k == 1:
+                    ctl.generate_status_report_for_nodes(components=None, filter_done=False)
+                elif k == 2:
+                    ctl.generate_status_report_for_nodes(components=list(rng.sample(s.refs, rng.randint(1, len(s.refs)))))
+                else:
+                    try:
+                        ctl.get_stage_status(s.stage_no)
+                    except Exception:
+                        pass
+            running = [s.refs[i] for i in s.running()]
+            if running and rng.random() < p_rewrite:
+                ref = rng.choice(running)
+                for fn, path in sorted(outs.get(ref, (None, {}))[1].items()):
+                    log.write(path, partial_of(rng, spec["comps"][outs[ref][0]]["out"][fn]))
+            cands = s.enabled()
+            ws = [weights.get(op[0], weights["fin"]) for op in cands]
+            cands.append(["sched"])
+            ws.append(weights["sched"] if len(cands) > 1 else 1000)
+            return rng.choices(cands, ws)[0]
+
+        import contextlib
+        with ComputeTap(log, specs_by_id, world.index) as tap, \
+                (debug_logging() if case.get("debug") else contextlib.nullcontext()):
+            result = sim.run(chooser)
+            # what the run leaves behind for every component (annotate_component_documents publishes these)
+            truth, last = log.truth()
+            final = []
+            for ref in world.order:
+                comp = sim.comp.get(ref)
+                if comp is None:
+                    continue
+                for fuzzy in (False, True):
+                    got = comp.memoization_hash_fuzzy if fuzzy else comp.memoization_hash
+                    final.append({"node": ref, "fuzzy": fuzzy, "used": got,
+                                  "current": truth[ref]["fuzzy" if fuzzy else "strong"]})
+                    log.events.append({"op": "get", "fuzzy": fuzzy, "j": world.index[ref]})
+                    log.seen.append(got)
+        states = {r: sim.state_name(r) for r in sim.refs}
+        for ev in log.events:
+            if ev["op"] == "write":
+                log.contents.add(ev["content"])
+        for n_ in fs0.values():
+            if n_ and n_["kind"] == "file":
+                log.contents.add(n_["content"])
+        request = {"op": "session", "bps": first["bps"], "comps": first["scomps"],
+                   "fs": [[p_, fs0[p_]] for p_ in sorted(fs0) if fs0[p_] is not None],
+                   "events": log.events[n_leftover:], "md5": sorted([c, md5s(c)] for c in log.contents)}
+        return {"result": result, "states": states, "lookups": lookups, "final": final, "request": request,
+                "seen": log.seen[n_leftover:], "tapped": tap.active, "probes": probes[0], "ops": sim.ops(),
+                "writes": sum(1 for e in log.events if e["op"] == "write")}
+    finally:
+        if sim is not None:
+            sim.close()
+        os.chdir(cwd)
+        shutil.rmtree(root, ignore_errors=True)
+
+
+def run_object_session(case, tmp):
+    """one experiment object: public hash properties of chosen nodes, file changes, resets of chosen nodes"""
+    import random
+    _imports()
+    import experiment.model.data as D
+    spec = case["spec"]
+    rng = random.Random(case["seed"])
+    live = World(spec, tmp)
+    cwd = os.getcwd()
+    try:
+        try:
+            shadow = D.Experiment.experimentFromInstance(live.inst)
+            shadow.validateExperiment(checkExecutables=False)
+        finally:
+            os.chdir(cwd)
+        world = World.over(spec, shadow)
+        log = SessionLog(world)
+        outs = session_paths(world, spec)
+        files = sorted(p for n in world.order for p in outs[n][1].values())
+        for c in spec["comps"]:
+            for r in c["refs"]:
+                if r["kind"] == "data":
+                    files.append(os.path.join(live.inst, "data", r["file"]))
+        files = sorted(set(files))
+        _t, first = log.truth()
+        fs0 = dict(first["fs"])
+        for path in files:
+            fs0.setdefault(world.sym(path), fs_node(path))
+        specs = {n: live.g.nodes[n]["componentSpecification"] for n in world.order}
+        specs_by_id = {id(cs): n for n, cs in specs.items()}
+        answers = []
+        clean = True      # no file changed since the last reset of every node
+        with ComputeTap(log, specs_by_id, world.index) as tap:
+            for _ in range(rng.randint(4, 12)):
+                k = rng.random()
+                if k < 0.45:
+                    n = rng.choice(world.order)
+                    via = rng.choice(["memoization_hash", "memoization_hash_fuzzy", "memoization_info",
+                                      "memoization_info_fuzzy"])
+                    fuzzy = via.endswith("fuzzy")
+                    got = getattr(specs[n], via)
+                    if via.startswith("memoization_info"):
+                        got = _imports()[0].ComponentSpecification._memoization_info_to_hash(got)
+                    log.events.append({"op": "get", "fuzzy": fuzzy, "j": world.index[n]})
+                    log.seen.append(got)
+                    truth, _o = log.truth()
+                    answers.append({"node": n, "via": via, "fuzzy": fuzzy, "used": got, "clean": clean,
+                                    "current": truth[n]["fuzzy" if fuzzy else "strong"]})
+                elif k < 0.75 and files:
+                    path = rng.choice(files)
+                    if os.path.isfile(path) and rng.random() < 0.2:
+                        log.remove(path)
+                    else:
+                        old = fs_node(path)
+                        log.write(path, mutate_other_length(rng, old["content"]) if old else rng.choice(CONTENTS))
+                    clean = False
+                elif k < 0.9:
+                    n = rng.choice(world.order)
+                    specs[n].memoization_reset()
+                    log.events.append({"op": "reset", "j": world.index[n]})
+                    log.seen.append(None)
+                else:
+                    for n in world.order:
+                        specs[n].memoization_reset()
+                        log.events.append({"op": "reset", "j": world.index[n]})
+                        log.seen.append(None)
+                    clean = True
+        for ev in log.events:
+            if ev["op"] == "write":
+                log.contents.add(ev["content"])
+        for n_ in fs0.values():
+            if n_ and n_["kind"] == "file":
+                log.contents.add(n_["content"])
+        request = {"op": "session", "bps": first["bps"], "comps": first["scomps"],
+                   "fs": [[p_, fs0[p_]] for p_ in sorted(fs0) if fs0[p_] is not None],
+                   "events": log.events, "md5": sorted([c, md5s(c)] for c in log.contents)}
+        return {"answers": answers, "request": request, "seen": log.seen, "tapped": tap.active}
+    finally:
+        live.close()
+
+
+def check_sessions(ctx, cases):
+    tmp = tempfile.mkdtemp(prefix="c16s-")
+    done = []
+    try:
+        for case in cases:
+            try:
+                res = (run_controller_session if case["mode"] == "controller" else run_object_session)(case, tmp)
+            except Exception as exc:  # the generated package was rejected: not a case of this property
+                ctx.tag("rejected:" + type(exc).__name__)
+                if case.get("must_build"):
+                    ctx.fail("corpus-case-does-not-build", case, {"error": repr(exc)[:400]})
+                continue
+            done.append((case, res))
+    finally:
+        shutil.rmtree(tmp, ignore_errors=True)
+    answers = model_sessions(ctx, [r["request"] for _c, r in done])
+    for idx, (case, res) in enumerate(done):
+        spec = case["spec"]
+        fanin = max([len({r["prod"] for r in c["refs"] if r["kind"] == "comp"}) for c in spec["comps"]] or [0])
+        if case["mode"] == "controller":
+            tags = ["session:controller", "session:fanin-%d" % min(fanin, 3), "session:result-" + str(res["result"]),
+                    "session:probes" if res["probes"] else "session:no-probes",
+                    "session:fuzzy-lookups" if case.get("fuzzy") else "session:strong-lookups",
+                    "session:log-debug" if case.get("debug") else "session:log-off"]
+            ctx.case(case, nontrivial=bool(res["lookups"]) and res["writes"] >= 1 and fanin >= 1, tags=tags)
+            detail = {"lookups": res["lookups"], "final": res["final"], "ops": res["ops"], "states": res["states"]}
+            if res["result"] != "ok" or any(st != "finished" for st in res["states"].values()):
+                ctx.tag("session:run-did-not-complete")
+            for lk in res["lookups"]:
+                if lk["used"] != lk["current"]:
+                    ctx.fail("lookup-hash-is-not-the-hash-of-the-current-contents", case, dict(detail, lookup=lk))
+                    break
+            for fin in res["final"]:
+                if fin["used"] != fin["current"]:
+                    ctx.fail("hash-after-the-run-is-not-the-hash-of-the-final-contents", case, dict(detail, node=fin))
+                    break
+        else:
+            ctx.case(case, nontrivial=len(res["answers"]) >= 2 and any(e["op"] in ("write", "remove")
+                                                                     for e in res["request"]["events"]),
+                     tags=["session:object"] + sorted({"session:via-" + a["via"] for a in res["answers"]}))
+            for a in res["answers"]:
+                if a["clean"] and a["used"] != a["current"]:
+                    ctx.fail("hash-after-reset-is-not-the-hash-of-the-current-contents", case,
+                             {"answer": a, "answers": res["answers"]})
+                    break
+        if answers is None or not res["tapped"]:
+            ctx.tag("session:no-model-comparison")
+            continue
+        if case["mode"] == "controller":
+            # hypothesis of C16.session_hashes_are_current, checked by the model on what the real Controller did:
+            # no file changed under the producer cone of a hash that was remembered at that moment
+            ctx.compare("the evaluations and file changes of a run of the real Controller keep the discipline of "
+                        "C16.session_hashes_are_current (Hash.disciplinedB) in a topological numbering",
+                        {"case": case, "which": "discipline"},
+                        {"disciplined": answers[idx]["disciplined"], "wellOrdered": answers[idx]["wellOrdered"]},
+                        {"disciplined": True, "wellOrdered": True})
+        else:
+            ctx.tag("session:object-disciplined" if answers[idx]["disciplined"] else "session:object-undisciplined")
+        model = [None if (a is None or a is False) else a["hash"] for a in answers[idx]["events"]]
+        evs = res["request"]["events"]
+        m_out = [[e["op"], e.get("fuzzy"), e.get("j"), model[k]] for k, e in enumerate(evs) if e["op"] in ("compute", "get")]
+        i_out = [[e["op"], e.get("fuzzy"), e.get("j"), res["seen"][k]] for k, e in enumerate(evs) if e["op"] in ("compute", "get")]
+        ctx.compare("every evaluation of _compute_memoization_info and every hash read during a session == "
+                    "Hash.runS (file system + per-object caches; md5 := hashlib table)",
+                    {"case": case, "which": "session"}, m_out, i_out)
+
+
+def model_sessions(ctx, requests):
+    """fixed point of the md5 table for session requests"""
+    if ctx.driver is None or not requests:
+        return None
+    tables = [dict((p_, d) for p_, d in r["md5"]) for r in requests]
+    answers = [None] * len(requests)
+    todo = list(range(len(requests)))
+    for _round in range(12):
+        if not todo:
+            break
+        reqs = []
+        for i in todo:
+            r = dict(requests[i])
+            r["md5"] = sorted([p_, d] for p_, d in tables[i].items())
+            reqs.append(r)
+        outs = ctx.model(reqs)
+        nxt = []
+        for i, o in zip(todo, outs):
+            answers[i] = o
+            changed = False
+            for e in o.get("events", []):
+                if e and e.get("ser") is not None and e["ser"] not in tables[i]:
+                    tables[i][e["ser"]] = md5s(e["ser"])
+                    changed = True
+            if changed:
+                nxt.append(i)
+        todo = nxt
+    return answers
+
+
+def corpus_sessions():
+    """`fast` and `slow` feed `consumer`; the outputs are half-written when the tasks start"""
+    def link(p, m="ref"):
+        return {"kind": "comp", "file": "out.txt", "method": m, "prod": p, "abs": False, "content": None, "missing": False}
+    spec = {"comps": [_comp("fast", 0, "sh", [[{"l": "-c"}]], out={"out.txt": "one\n"}),
+                      _comp("slow", 0, "sh", [[{"l": "-c"}], [{"l": "x"}]], out={"out.txt": "part\nrest\n"}),
+                      _comp("consumer", 0, "cat", [[{"r": 0}], [{"r": 1}]], [link(0), link(1)], out={"r.csv": "R"}),
+                      _comp("last", 0, "/bin/ls", [[{"r": 0}]],
+                            [{"kind": "comp", "file": None, "method": "ref", "prod": 2, "abs": True, "content": None,
+                              "missing": False}])],
+            "order": None, "mtime": None, "loc": "w"}
+    return [{"kind": "session", "mode": "controller", "spec": spec, "seed": k, "fuzzy": bool(k % 2), "must_build": True}
+            for k in range(6)] + \
+           [{"kind": "session", "mode": "object", "spec": spec, "seed": k, "must_build": True} for k in range(2)]
+
+
+def gen_sessions(rng, n_ctl, n_obj):
+    cases = []
+    for _ in range(n_ctl):
+        spec = session_spec(rng)
+        for _k in range(2):
+            cases.append({"kind": "session", "mode": "controller", "spec": spec, "seed": rng.randint(0, 10 ** 6),
+                          "fuzzy": rng.random() < 0.4, "debug": rng.random() < 0.3})
+    for _ in range(n_obj):
+        cases.append({"kind": "session", "mode": "object", "spec": session_spec(rng), "seed": rng.randint(0, 10 ** 6)})
+    return cases
+
+
+def corpus_chain_cases():
+    """consumer -> working directory of `middle` (in the arguments) -> file of `gen`: the file of `gen` is missing, the
+    data file of `gen` is missing (three levels up)"""
+    def link(p, f=None, m="ref"):
+        return {"kind": "comp", "file": f, "method": m, "prod": p, "abs": True, "content": None, "missing": False}
+    cfg = {"kind": "data", "file": "conf.json", "method": "copy", "prod": None, "abs": False, "content": "1 2 3",
+           "missing": False}
+    base = {"comps": [_comp("gen", 0, "/bin/echo", [[{"l": "hello"}]], [dict(cfg)], out={"out.txt": "AAA"}),
+                      _comp("middle", 0, "/bin/cat", [[{"r": 0}]], [link(0, "out.txt")], out={"r.csv": "BBB"}),
+                      _comp("consumer", 0, "/bin/ls", [[{"l": "-l"}], [{"r": 0}]], [link(1)]),
+                      _comp("last", 1, "/bin/cat", [[{"l": "x="}, {"r": 0}]], [link(2)])],
+            "order": None, "mtime": None, "loc": "w"}
+    v1 = copy.deepcopy(base)
+    v1["comps"][0]["out"]["out.txt"] = None
+    v2 = copy.deepcopy(base)
+    v2["comps"][0]["refs"][0]["missing"] = True
+    return [{"kind": "pair", "base": base, "variant": v1,
+             "exp": {"aspect": "missing-produced", "target": 3, "missing_at": 1}, "must_build": True},
+            {"kind": "pair", "base": base, "variant": v2,
+             "exp": {"aspect": "missing-input", "target": 3, "missing_at": 0}, "must_build": True}]
+
+
 def corpus_mult_histories():
     """three copied files [X, X, Y]: one of the X files receives the bytes of Y ([X, Y, Y]: another multiset, the
     same set), then the third one receives X ([X, Y, X]: the multiset of the beginning)"""
@@ -1788,6 +2481,72 @@ def corpus_mult_histories():
              {"op": "reload"},
              {"op": "write", "file": ["data", "a.cfg"], "content": y, "how": "inplace", "mtime": "keep", "order": 3}]
     return [{"kind": "history", "spec": spec, "steps": steps, "must_build": True}]
+
+
+def gen_chain_world(rng):
+    """a chain of 3-5 components, each consuming something of the previous one - the working directory named in the
+    arguments, a file named in the arguments, the standard output, a file or the directory staged in by :copy / :link -
+    (+ sometimes a side producer and direct files), all files present"""
+    n = rng.randint(3, 5)
+    names = rng.sample(NAMES, n)
+    stage = 0
+    comps = []
+    for i in range(n):
+        if i and rng.random() < 0.25:
+            stage += 1
+        c = _comp(names[i], stage, rng.choice(EXES), [[{"l": rng.choice(WORDS)}] for _ in range(rng.randint(0, 2))])
+        if i == 0 or rng.random() < 0.3:
+            kind = rng.choice(["input", "data"])
+            c["refs"].append({"kind": kind, "file": rng.choice(FILES[:4]) if kind == "input" else rng.choice(FILES[4:]),
+                              "method": rng.choice(["ref", "copy", "ref"]), "prod": None, "abs": False,
+                              "content": None, "missing": False})
+        if i:
+            prods = [i - 1] + ([rng.randrange(i)] if rng.random() < 0.3 else [])
+            for j in sorted(set(prods)):
+                shape = rng.choice(["dir-ref"] * 5 + ["file-ref", "file-ref", "stdout", "file-copy", "dir-copy"])
+                r = {"kind": "comp", "file": None, "method": "ref", "prod": j,
+                     "abs": comps[j]["stage"] != stage or rng.random() < 0.4, "content": None, "missing": False}
+                if shape in ("file-ref", "file-copy"):
+                    r["file"] = rng.choice(FILES)
+                    r["method"] = rng.choice(["ref", "output"]) if shape == "file-ref" else rng.choice(["copy", "link"])
+                    comps[j]["out"].setdefault(r["file"], rng.choice(CONTENTS))
+                elif shape == "stdout":
+                    r["method"] = "output"
+                    comps[j]["out"].setdefault("out.stdout", rng.choice(CONTENTS))
+                elif shape == "dir-copy":
+                    r["method"] = "copy"
+                c["refs"].append(r)
+        for k, r in enumerate(c["refs"]):
+            if r["method"] in ARG_METHODS:
+                part = [{"l": rng.choice(PREFIXES)}, {"r": k}]
+                c["args"].insert(rng.randint(0, len(c["args"])), [seg for seg in part if seg.get("l") != ""])
+        comps.append(c)
+    # the contents of direct files are per (kind, file)
+    pool = {}
+    for c in comps:
+        for r in c["refs"]:
+            if r["kind"] in ("input", "data"):
+                r["content"] = pool.setdefault((r["kind"], r["file"]), rng.choice(CONTENTS))
+    return {"comps": comps, "order": None, "mtime": None, "loc": "w"}
+
+
+def gen_chain_pairs(rng, nworlds, per_world):
+    """chains of producers: a file is missing at some level, the executable / the name / the output of a producer up
+    the chain changes"""
+    pairs = []
+    for _ in range(nworlds):
+        base = gen_chain_world(rng)
+        t = len(base["comps"]) - 1
+        made = 0
+        for aspect in rng.sample(["missing-input", "missing-produced", "missing-input", "missing-produced",
+                                  "producer-exe", "producer-name", "produced-content", "name", "location"], 9):
+            res = make_variant(rng, base, aspect, rng.choice([t, t, t - 1]))
+            if res is not None:
+                pairs.append({"kind": "pair", "base": base, "variant": res[0], "exp": res[1]})
+                made += 1
+            if made >= per_world:
+                break
+    return pairs
 
 
 def gen_pairs(rng, nworlds, per_world):
@@ -1832,7 +2591,18 @@ def run(ctx):
                 "renames; remove; touch one or all files; re-create the Experiment object over the instance; in "
                 "experiments with several identical consumed files: give one file the bytes of another), all "
                 "hashes recomputed after every step; non-trivial = some step changes, removes or exchanges a file and "
-                "some component consumes a file.")
+                "some component consumes a file. Chains: 3-5 components each consuming the working directory (named "
+                "in the arguments or staged in), a file or the standard output of the previous one; a file is missing "
+                "at any level of the chain (pairs and histories): no hash for every component whose hash stands on "
+                "the hash of an un-hashable producer. A sample of every batch is built and hashed again at the end "
+                "of the batch (other order, other place, DEBUG logging). Sessions: (controller) the real Controller "
+                "with a CDB stand-in runs experiments of 3-6 components (fan-in of 1-3 producers, chains) under the "
+                "deterministic runtime with random interleavings; tasks leave leftovers, half-written and rewritten "
+                "outputs and write the final bytes at their exit; status reports are requested at random moments; "
+                "logging off or DEBUG; every CDB look-up and every hash a component ends the run with is compared "
+                "with the hash of a second Experiment object over the files of that moment; non-trivial = at least "
+                "one look-up, one write and one producer; (object) 4-12 reads of the four public hash properties "
+                "of random nodes interleaved with file changes and resets; non-trivial = two reads and a file change.")
     ctx.assumptions = [
         "md5 of the model is a table of hashlib digests filled by the harness (pre-images: file contents and the "
         "serialisations returned by the model); the theorems take md5 as a parameter with Function.Injective md5 as "
@@ -1842,12 +2612,17 @@ def run(ctx):
         "come from the generated specification",
         "generated arguments contain no %(variable)s, file contents are ASCII text",
         "histories: a hash is observed after memoization_reset() of every node (or on a freshly created Experiment "
-        "object); the per-object cache of ComponentSpecification between two resets is the documented design and is "
-        "not exercised; the operations of the file-system model (write/touch/remove/rename) are compared with what "
+        "object); the operations of the file-system model (write/touch/remove/rename) are compared with what "
         "the operating system did to the tracked paths after every step",
+        "sessions: the per-object cache is inside the model (Hash.runS); the evaluations are recorded by "
+        "wrapping ComponentSpecification._compute_memoization_info (order of return); the tasks of a controller "
+        "session are stand-in engines (harness/detsim.py), their output files are written by the harness at launch, "
+        "at chosen moments and at exit; all tasks succeed, no repeating components, no DoWhile, no replication; the "
+        "truth of a moment is computed by a second Experiment object created from the same instance directory",
     ]
     ctx.trusted.append("C16: hashlib.md5 treated as an injective function (hypothesis of the theorems, not an axiom); "
-                       "embeddingFunction (JavaScript) fuzzy hashes, DoWhile placeholders and loopref are not modelled")
+                       "embeddingFunction (JavaScript) fuzzy hashes, DoWhile placeholders and loopref are not modelled; "
+                       "harness/detsim.py (deterministic execution of the real Controller) for the controller sessions")
     rng = ctx.rng
     quick = ctx.tier == "quick"
     pairs = corpus_cases()
@@ -1880,6 +2655,16 @@ def run(ctx):
         if h is not None:
             histories.append(h)
     check_histories(ctx, histories)
+    # chains of producers: a missing file at any level (after the parts above, same reason)
+    check_pairs(ctx, corpus_chain_cases() + gen_chain_pairs(rng, 8 if quick else 80, 4))
+    histories = []
+    for _ in range(8 if quick else 80):
+        h = gen_history(rng, chain=True)
+        if h is not None:
+            histories.append(h)
+    check_histories(ctx, histories)
+    # sessions: the real Controller (and plain readers) ask for hashes while files are being written
+    check_sessions(ctx, corpus_sessions() + gen_sessions(rng, 20 if quick else 300, 8 if quick else 120))
 
 
 def replay(ctx, doc):
@@ -1904,6 +2689,8 @@ def replay(ctx, doc):
         case = dict(case)
         case["must_build"] = True
         check_histories(ctx, [case])
+    elif kind == "session":
+        check_sessions(ctx, [dict(case, must_build=True)])
     elif kind == "info":
         check_infos(ctx, [case["info"]])
     elif kind == "info-pair":
